@@ -55,7 +55,7 @@ for d in sorted(glob.glob(os.path.join(V, 'seeded', '*', 'meta.json'))):
 with open(os.path.join(V, 'seeded', 'MATRIX.md'), 'w') as fh:
     fh.write('# Seeded changes (written by independent sub-agents from the property text only)\n\n')
     fh.write('Each directory holds `patch.diff`, the demonstration `demo.rs` (fails with the change, passes without; the unedited suite still passes with the change — confirmed by `tools/verify_seed.sh` in a scratch worktree), `notes.md` and `meta.json`. '
-             '`./check selftest seeded` replays them. "reported by" is the last full replay over all twenty checks (`out/selftest/seeded-detail.json`): rules of the change's own property first, other properties' rules in brackets. "initially" is what the checks said the first time the change was applied to /repo (`tools/try_seed.sh`); "then" is what was strengthened.\n\n')
+             '`./check selftest seeded` replays them. "reported by" is the last full replay over all twenty checks (`out/selftest/seeded-detail.json`): rules of the own property of the change first, rules of other properties in brackets. "initially" is what the checks said the first time the change was applied to /repo (`tools/try_seed.sh`); "then" is what was strengthened.\n\n')
     fh.write('%d changes, %d detected now.\n\n' % (len(rows), sum(1 for r in rows if 'not detected' not in r)))
     fh.write('| id | change | reported by (rules) | initially | then |\n|---|---|---|---|---|\n')
     fh.write('\n'.join(rows) + '\n')
